@@ -40,7 +40,7 @@ pub fn minimize(actions: Vec<Action>, profile: &Profile, sig: &str) -> Vec<Actio
                 actions: a.clone(),
                 profile: profile.clone(),
             },
-            false,
+            !sig.starts_with("panic:"),
         );
         failure_signature(&r).as_deref() == Some(sig)
     };
@@ -187,7 +187,7 @@ fn main() {
                         actions: min.clone(),
                         profile: profile.clone(),
                     },
-                    false,
+                    true,
                 );
                 let mut out = String::new();
                 out.push_str(&format!("signature: {sig}\ncount: {count}\nactions: {}\n", min.len()));
@@ -220,7 +220,7 @@ fn main() {
                     actions,
                     profile: Profile::for_property(&prop),
                 },
-                false,
+                true,
             );
             println!("replayed: {:?} {:?}", r2.outcome, failure_signature(&r2));
             if args.get(3).map(|s| s == "-v").unwrap_or(false) {
